@@ -44,13 +44,15 @@ LEAN = {"module": "Pygom.Props.C16",
                      "Pygom.C16.history_irrelevant", "Pygom.C16.history_irrelevant_param",
                      "Pygom.C16.stream_segments", "Pygom.C16.segment_determines_run",
                      "Pygom.C16.draw_schedule_step", "Pygom.C16.draw_schedule_jump", "Pygom.C16.draw_schedule",
-                     "Pygom.C16.draw_schedule_param", "Pygom.C16.jump_is_c04_run",
+                     "Pygom.C16.draw_schedule_param", "Pygom.C16.jump_is_c04_run", "Pygom.C16.never_starved",
+                     "Pygom.C16.history_irrelevant_solve_stochast", "Pygom.C16.solve_determ_fixed_no_draws",
+                     "Pygom.C16.mean_over_n_plus_one_counterexample",
                      "Pygom.C16.no_foreign_requests_primary_only", "Pygom.C16.foreign_source_breaks_counterexample",
                      "Pygom.C16.foreign_retry_breaks_counterexample", "Pygom.C16.mean_is_mean",
                      "Pygom.C16.first_wait_is_min_of_draws", "Pygom.C16.different_first_wait_different_path",
                      "Pygom.C16.different_streams_same_output_counterexample"]}
 BUDGET = {"quick": {"stoch": 320, "param": 180},
-          "thorough": {"stoch": 1600, "param": 1200, "max_steps": 1000, "steps": [30, 80, 200, 400]}}
+          "thorough": {"stoch": 3000, "param": 2200, "max_steps": 1000, "steps": [30, 80, 200, 400]}}
 RULE = ("serial calls only (parallel=False). STOCH cases: bounded-rate event models of the shared generator (1-5 states, 1-5 events, "
         "all API routes, derived parameters), integer initial states, x {exact, adaptive tau, fixed tau with steps large enough to be "
         "rejected by the limits}, n = 1..6 iterations, horizon as number / one-element list / grid (list, tuple, array), 30% with "
